@@ -184,8 +184,8 @@ fn search_queries(kind: &str, fam: &c19::ColFam) -> Vec<SQ> {
 
 fn search_key(kind: &str, index: &str, fam: &str, q: &SQ, name: &str, history: &[HOp]) -> String {
     let stable = c19::parse_index(index).2;
-    if kind == "zonemap" && stable {
-        return "zonemap/stable-row-ids/index-drops-rows".to_string();
+    if (kind == "zonemap" || kind == "bloomfilter") && stable {
+        return format!("{kind}/stable-row-ids/index-drops-rows");
     }
     if let SQ::Contains(s) = q {
         return format!("ngram/contains-{}/index-drops-rows", c19::str_class(s));
@@ -367,7 +367,9 @@ pub fn run(ctx: &Ctx) -> Outcome {
     sbbf_direct(&mut cov, &mut viol);
     let sitems: Vec<(c19::ColFam, String, Vec<HOp>)> = combos
         .iter()
-        .flat_map(|(f, i)| hs.iter().filter(|h| !quick || h.len() <= 1 || h[1] == HOp::Optimize).map(move |h| (f.clone(), i.clone(), h.clone())))
+        // after a compaction with deferred index remap the segment answers in pre-compaction addresses
+        // that are translated later in the read path: no simple ground truth at this level
+        .flat_map(|(f, i)| hs.iter().filter(|h| !h.contains(&HOp::CompactDefer) && (!quick || h.len() <= 1 || h[1] == HOp::Optimize)).map(move |h| (f.clone(), i.clone(), h.clone())))
         .collect();
     let n_search_items = sitems.len();
     let res = vcore::par_map(sitems, ctx.workers, |_, (f, i, h)| {
